@@ -1,0 +1,29 @@
+// Copyright (c) The Thanos Community Authors.
+// Licensed under the Apache License 2.0.
+
+//go:build verif
+
+package aggregate
+
+import (
+	"github.com/prometheus/prometheus/promql/parser"
+)
+
+// VerifAccumulator exposes one accumulator of the hash aggregation to the verification harness.
+type VerifAccumulator struct {
+	a *accumulator
+}
+
+// VerifNewAccumulator builds the accumulator of an aggregation.
+func VerifNewAccumulator(op parser.ItemType) (*VerifAccumulator, error) {
+	f, err := makeAccumulatorFunc(op)
+	if err != nil {
+		return nil, err
+	}
+	return &VerifAccumulator{a: f()}, nil
+}
+
+func (v *VerifAccumulator) Reset(arg float64) { v.a.Reset(arg) }
+func (v *VerifAccumulator) Add(x float64)     { v.a.AddFunc(x) }
+func (v *VerifAccumulator) HasValue() bool    { return v.a.HasValue() }
+func (v *VerifAccumulator) Value() float64    { return v.a.ValueFunc() }
